@@ -44,6 +44,7 @@ static __thread TCTX tctx;
 static ESL_WORK_QUEUE *g_wq      = NULL;
 static ESL_THREADS    *g_thr     = NULL;
 static ESL_DSQDATA    *g_dd      = NULL;
+static int             g_spurious = 25;    /* % of cond_wait calls that return spuriously while perturbation is on */
 static int             g_perturb = 0;      /* 0..100: probability (%) of a perturbation at a lock operation */
 static int             g_blk[64];          /* block payloads; block id = index */
 static char           *g_trace   = NULL;   /* appended only while holding g_wq->queueMutex */
@@ -209,6 +210,14 @@ int __wrap_pthread_cond_wait(pthread_cond_t *c, pthread_mutex_t *m)
   if (g_thr && m == &g_thr->startMutex && tctx.active) log_thr('c');
   if (g_dd) log_pipe(m, 'c');
   if (! held_has(m)) __sync_fetch_and_add(&g_lockerr, 1);
+  /* POSIX allows pthread_cond_wait() to return spuriously: now and then (seeded) do exactly that - release the mutex,
+   * yield, take it again, return - so that a wait that is not re-checked in a loop shows */
+  if (g_perturb && (int)(trand() % 100) < g_spurious) {
+    __real_pthread_mutex_unlock(m);
+    sched_yield();
+    __real_pthread_mutex_lock(m);
+    r = 0;
+  } else
   r = __real_pthread_cond_wait(c, m);
   { int u; if (g_ptrace && dd_mutex_kind(m, &u)) tctx.phase = 1; }
   if (g_wq && m == &g_wq->queueMutex && tctx.active) tctx.phase = 1;
@@ -268,9 +277,12 @@ static void op_wq(void)
   if (strcmp(op, "init") == 0) {
     b = (int) h_argi("b", 0);
     if (b <= 0 || b >= 64) { h_out("bad-op"); return; }
-    if (q->readerQueueCnt >= q->queueSize) { h_out("overflow | %s", wq_dump(q)); return; }
-    st = esl_workqueue_Init(q, &g_blk[b]);
-    h_out("%s | %s", h_status(st), wq_dump(q));
+    { int full = (q->readerQueueCnt >= q->queueSize);
+      st = esl_workqueue_Init(q, &g_blk[b]);
+      /* the "queue overflow" exception returns with the mutex still held: release it so that the history can go on */
+      if (st == eslEINVAL && h_exception_seen) { pthread_mutex_unlock(&q->queueMutex); h_out("overflow | %s", wq_dump(q)); }
+      else h_out("%s%s | %s", h_status(st), full ? "-but-was-full" : "", wq_dump(q));
+    }
   } else if (strcmp(op, "remove") == 0) {
     st = esl_workqueue_Remove(q, &obj);
     if (st == eslOK) { if (obj) sq_holder[blkid(obj)] = 0; h_out("ok b=%d | %s", blkid(obj), wq_dump(q)); }
@@ -287,9 +299,13 @@ static void op_wq(void)
     if (b < 0 || b >= 64) { h_out("bad-op"); return; }
     if (out && (isw ? q->workerQueueCnt : q->readerQueueCnt) == 0) { h_out("wouldblock | %s", wq_dump(q)); return; }
     if (b && sq_holder[b] != w)                                     { h_out("disabled | %s", wq_dump(q)); return; }
-    if (b && (isw ? q->readerQueueCnt : q->workerQueueCnt) >= q->queueSize) { h_out("overflow | %s", wq_dump(q)); return; }
     if (isw) st = esl_workqueue_WorkerUpdate(q, b ? &g_blk[b] : NULL, out ? &obj : NULL);
     else     st = esl_workqueue_ReaderUpdate(q, b ? &g_blk[b] : NULL, out ? &obj : NULL);
+    if (st == eslEINVAL && h_exception_seen) {      /* "queue overflow": the call returns with the mutex held and nothing done */
+      pthread_mutex_unlock(&q->queueMutex);
+      h_out("overflow | %s", wq_dump(q));
+      return;
+    }
     if (b) sq_holder[b] = -1;
     if (out && obj) sq_holder[blkid(obj)] = w;
     if (st == eslOK && out) h_out("ok b=%d | %s", blkid(obj), wq_dump(q));
@@ -319,11 +335,23 @@ static void *wq_worker(void *p)
   return NULL;
 }
 
+/* controller thread: hands the blocks in lazily, possibly while the reader already sleeps on the empty reader queue */
+typedef struct { int B; uint64_t seed; int ok; } CTLARG;
+static void *wq_controller(void *p)
+{
+  CTLARG *a = (CTLARG *) p; int i;
+  memset(&tctx, 0, sizeof(tctx)); tctx.tid = 99; tctx.rng = a->seed;
+  a->ok = 1;
+  for (i = 1; i <= a->B; i++) { perturb(); g_blk[i] = 0; if (L_Init(g_wq, &g_blk[i]) != eslOK) a->ok = 0; }
+  return NULL;
+}
+
 static void op_wqrun(void)
 {
   int size = (int) h_argi("size", 4), W = (int) h_argi("workers", 2), B = (int) h_argi("blocks", size);
   int M = (int) h_argi("items", 10);
   uint64_t seed = h_argu("seed", 1);
+  int lazy = (int) h_argi("lazy", 0); pthread_t cth; CTLARG ctl;
   pthread_t th[16]; WARG wa[16];
   int i, k, ok = 1, *obj = NULL, *count, processed = 0, dup = 0, fifo = 1, removed = 0;
   void *r;
@@ -333,13 +361,15 @@ static void op_wqrun(void)
   memset(&tctx, 0, sizeof(tctx)); tctx.tid = 0; tctx.rng = seed * 0x9E3779B97F4A7C15ull + 1;
   g_tlen = 0; g_nevents = 0; if (g_trace) g_trace[0] = 0; g_lockerr = 0;
   g_wq = esl_workqueue_Create(size);
-  for (i = 1; i <= B; i++) { g_blk[i] = 0; if (L_Init(g_wq, &g_blk[i]) != eslOK) ok = 0; }
+  if (! lazy) for (i = 1; i <= B; i++) { g_blk[i] = 0; if (L_Init(g_wq, &g_blk[i]) != eslOK) ok = 0; }
   for (i = 0; i < W; i++) {
     wa[i].tid = i + 1; wa[i].seed = seed * 1000003ull + 7919ull * (i + 1); wa[i].nseen = 0; wa[i].ok = 0;
     wa[i].seen = malloc(sizeof(int) * (M + 1));
     pthread_create(&th[i], NULL, wq_worker, &wa[i]);
   }
+  if (lazy) { ctl.B = B; ctl.seed = seed * 31337ull + 3; pthread_create(&cth, NULL, wq_controller, &ctl); }
   if (L_ReaderUpdate(g_wq, NULL, (void **) &obj) != eslOK || ! obj) ok = 0;
+  if (lazy) { pthread_join(cth, &r); if (! ctl.ok) ok = 0; }
   for (i = 1; ok && i <= M; i++) {
     *obj = i;
     perturb();
@@ -559,11 +589,12 @@ static CHREC *rt_chu;  static int rt_nchu_alloc;
 static int    rt_dup, rt_eofs, rt_oob, rt_err;
 static pthread_mutex_t rt_mutex = PTHREAD_MUTEX_INITIALIZER;
 
-typedef struct { uint64_t seed; int tid; } CARG;
+typedef struct { uint64_t seed; int tid; int hold; } CARG;
 
 static void *rt_consumer(void *p)
 {
   CARG *a = (CARG *) p; ESL_DSQDATA_CHUNK *chu; int st, i;
+  ESL_DSQDATA_CHUNK *kept[32]; int nkept = 0;     /* chunks this consumer is "still working on" (recycled in batches) */
   memset(&tctx, 0, sizeof(tctx)); tctx.rng = a->seed; tctx.tid = a->tid;
   while ((st = esl_dsqdata_Read(g_dd, &chu)) == eslOK) {
     int64_t seqno = tctx.last_nchunk - 1;
@@ -582,8 +613,10 @@ static void *rt_consumer(void *p)
     }
     __real_pthread_mutex_unlock(&rt_mutex);
     perturb();
-    esl_dsqdata_Recycle(g_dd, chu);
+    kept[nkept++] = chu;
+    if (nkept >= a->hold) { while (nkept > 0) { esl_dsqdata_Recycle(g_dd, kept[--nkept]); perturb(); } }
   }
+  while (nkept > 0) esl_dsqdata_Recycle(g_dd, kept[--nkept]);
   __real_pthread_mutex_lock(&rt_mutex);
   if (st == eslEOF && chu == NULL) rt_eofs++; else rt_err++;
   __real_pthread_mutex_unlock(&rt_mutex);
@@ -704,7 +737,14 @@ static void op_dsqrt(void)
     snprintf(hdr, sizeof(hdr), "%" PRIu64 "/%" PRIu64 "/%" PRIu64 "/%" PRIu32 "/%" PRIu32 "/%" PRIu32 "/%d", dd->nseq, dd->nres, dd->max_seqlen,
              dd->max_namelen, dd->max_acclen, dd->max_desclen, dd->pack5 ? 5 : 2);
   }
-  for (i = 0; i < C; i++) { ca[i].seed = seed * 7777ull + 13ull * (i + 1); ca[i].tid = 100 + i; pthread_create(&th[i], NULL, rt_consumer, &ca[i]); }
+  { /* a consumer may work on several chunks at once (nconsumers is "a hint, not a commitment"): then the loader runs out of
+     * chunk buffers and has to wait for recycled ones. Keep at least one buffer circulating: C * hold + 1 <= limit. */
+    int Ueff = g_dd->n_unpackers, hold = (int) h_argi("hold", 1), maxhold = (3 * Ueff + 1) / C + 1;
+    if (hold < 1) hold = 1;
+    if (hold > maxhold) hold = maxhold;
+    if (hold > 32) hold = 32;
+    for (i = 0; i < C; i++) { ca[i].seed = seed * 7777ull + 13ull * (i + 1); ca[i].tid = 100 + i; ca[i].hold = hold; pthread_create(&th[i], NULL, rt_consumer, &ca[i]); }
+  }
   for (i = 0; i < C; i++) pthread_join(th[i], &r);
   { ESL_DSQDATA *dd = g_dd; esl_dsqdata_Close(dd); g_dd = NULL; }
   g_perturb = 0;
@@ -779,7 +819,7 @@ static void h_op(void)
     /* watchdog: a deadlock becomes a process death ("fault signal:14" for this case). One deadlock per check run is
      * enough evidence: later threaded ops of the same run are answered at once instead of waiting 45 s each. */
     if (access("c12_deadlock_seen", F_OK) == 0) { h_out("fault deadlock-seen-earlier-in-this-run"); return; }
-    signal(SIGALRM, on_alarm); alarm(45);
+    signal(SIGALRM, on_alarm); alarm(getenv("C12_WATCHDOG") ? (unsigned) atoi(getenv("C12_WATCHDOG")) : 45);
     if (op[0] == 'w') op_wqrun(); else if (op[0] == 't') op_thrun(); else op_dsqrt();
     alarm(0);
   }
